@@ -173,6 +173,16 @@ def run_case(cid, rng, workdir):
         ffield = vermouth.forcefield.ForceField(name="rr")
         meta2 = MetaMolecule.from_itp(ffield, os.path.join(workdir, "out.itp"), "POLY")
         compare_reread(res, built, meta2, "from_itp", w)
+        # reading the same file again into the same force field (a regenerated molecule under the same name) must give
+        # the same residue graph
+        meta3 = MetaMolecule.from_itp(ffield, os.path.join(workdir, "out.itp"), "POLY")
+        e2 = {frozenset((meta2.nodes[a]["resid"], meta2.nodes[b]["resid"])) for a, b in meta2.edges}
+        e3 = {frozenset((meta3.nodes[a]["resid"], meta3.nodes[b]["resid"])) for a, b in meta3.edges}
+        bump(res, "second_reads_into_same_force_field")
+        if e2 != e3 or len(meta2.molecule.edges) != len(meta3.molecule.edges):
+            violation(res, "second-read-into-same-force-field-differs", "first read: %d residue edges / %d atom edges, second read "
+                      "of the same file into the same force field: %d / %d" %
+                      (len(e2), len(meta2.molecule.edges), len(e3), len(meta3.molecule.edges)), w())
     except Exception as err:
         violation(res, "reread-fails:from_itp:%s" % type(err).__name__, "MetaMolecule.from_itp rejects the file: %s" %
                   str(err)[:200], w())
